@@ -840,7 +840,10 @@ def _foreign_tokens(got, wants):
     vocab = set(base)
     for w_ in wants:
         vocab |= set(_re.findall(r"[A-Za-z_][\w.]*", w_))
-    return [t_ for e_ in got for t_ in _re.findall(r"[A-Za-z_][\w.]*", e_) if t_ not in vocab and not _re.fullmatch(r"\d+(\.\d+)?", t_)]
+    out = [t_ for e_ in got for t_ in _re.findall(r"[A-Za-z_][\w.]*", e_) if t_ not in vocab and not _re.fullmatch(r"\d+(\.\d+)?", t_)]
+    # a look-up in a table the walk could not fill ({}[V], [][V], {}.get(V)) is unresolved too
+    out += [m_ for e_ in got for m_ in _re.findall(r"\{\}\s*(?:\[|\.get)|\[\]\s*\[", e_.replace(" ", ""))]
+    return out
 
 
 def _elementwise_row(prog, rep, cname, m):
